@@ -241,8 +241,9 @@ class LoopSpec:
     """contract-side configuration of a cut loop: invariant (callable(interp, env) -> z3 Bool or list)"""
 
     def __init__(self, inv=None, modes=('iter', 'exit'), havoc_extra=(), keep=(), at_start=None, at_end=None,
-                 at_exit=None, at_break=None, decreases=None, unroll=None, at_entry=None, inv_n=None):
+                 at_exit=None, at_break=None, decreases=None, unroll=None, at_entry=None, inv_n=None, as_row=()):
         self.inv = inv
+        self.as_row = as_row          # names of dict accumulators (string keys) that continue as an arbitrary finite map (Row)
         self.modes = modes
         self.havoc_extra = havoc_extra
         self.keep = keep
@@ -610,9 +611,13 @@ class Interp:
         # NOTE: Python evaluates defaults once at def time; mutable defaults are shared between calls.
         # Defaults are evaluated in the defining environment; literal mutable defaults are re-created per call,
         # which is recorded as an assumption when it matters (mutable default written to).
-        key = ('default', id(node))
-        v = self.eval(node, fn.env)
-        return v
+        # (as of round 4: evaluated on first use and then SHARED by all later calls of the same function object on this path,
+        #  which is Python's behaviour for `def f(x, acc=[])` / `def __call__(self, source=DataStream())`)
+        cache = fn.__dict__.setdefault('_default_cache', {})
+        key = id(node)
+        if key not in cache:
+            cache[key] = self.eval(node, fn.env)
+        return cache[key]
 
     def call_funcdef(self, fn, args, kwargs):
         if fn.is_gen:
@@ -1266,6 +1271,12 @@ class Interp:
             if e is None:
                 continue
             cur = e.vars[n]
+            if len(parts) == 1 and n in (getattr(spec, 'as_row', ()) or ()) and isinstance(cur, PyDict) and \
+                    all(isinstance(k, str) for k in cur.d):
+                # a dict accumulator with string keys that the loop fills from symbolic maps: after an arbitrary number of
+                # iterations it is an arbitrary finite map (the contract states the per-iteration step on it)
+                e.vars[n] = Row(self.fresh('hv_%s.dom' % n, DomS), self.fresh('hv_%s.val' % n, ValS), name='hv_' + n)
+                continue
             holder, attr = None, None
             for a in parts[1:]:
                 if isinstance(cur, (Instance, Opaque)) and a in cur.attrs:
